@@ -21,6 +21,32 @@ def encoder_cases(wd, deep):
     return [json.loads(l) for l in open(cases)]
 
 
+def queue_model(v, wd, deep):
+    """(A0) QueueSpec: the queue reader and the iterators' refill loop against EVERY packetisation of small sections.
+    The invariants hold for the protocol as built; each named variant (two repaired defects, two seeded changes, a missing
+    cap) has a counterexample, which shows that the invariants are able to fail (model self-test)."""
+    inv = ["NoPastNoFail", "CapHolds", "DoneMeansAll", "MemBound", "WellFormed", "AllArrive", "RefusedIffAllZero"]
+    runs = [("asbuilt", "iterator", "MCWidths" if deep else "MCWidthsSmall", 5 if deep else 3, 2 if deep else 1, inv, ["Terminates"], True),
+            ("asbuilt", "direct", "MCWidths" if deep else "MCWidthsSmall", 4 if deep else 3, 2 if deep else 1, ["MemBound", "WellFormed", "AllArrive", "RefusedIffAllZero"], [], True),
+            ("single_advance", "iterator", "MCWidthsSmall", 3, 1, ["NoPastNoFail"], [], False),
+            ("no_cap", "iterator", "MCWidthsSmall", 3, 1, ["CapHolds"], [], False),
+            ("fill_cap", "iterator", "MCWidthsSmall", 3, 1, ["NoPastNoFail"], [], False),
+            ("allzero_allowed", "iterator", "MCWidthsSmall", 3, 1, ["MemBound"], [], False)]
+    out = []
+    for variant, driver, widths, maxn, other, invs, props, expect_ok in runs:
+        cfg = os.path.join(wd, f"queue_{variant}_{driver}.cfg")
+        vlib.write_cfg(cfg, spec="Spec", constants={"Variant": f'"{variant}"', "Driver": f'"{driver}"', "Widths": "<- " + widths, "MaxN": maxn, "MaxOther": other, "FillCap": 1},
+                       invariants=invs, properties=props)
+        r = vlib.tlc_mc("MC_Queue", cfg, os.path.join(wd, f"queue_{variant}_{driver}.out"), workers=4, timeout=1200)
+        ok = r["violated"] is None and r["ok"]
+        out.append({"variant": variant, "driver": driver, "widths": widths, "MaxN": maxn, "holds": ok, "states": r["distinct"], "violated": r["violated"]})
+        if ok != expect_ok:
+            raise vlib.ToolError(f"QueueSpec: variant '{variant}' ({driver}) expected {'to hold' if expect_ok else 'to be violated'}; TLC: {r['violated']} (see {r['out']})")
+        v.add(states=r["distinct"], transitions=r["generated"])
+    v.cov["queue_model"] = out
+    log(f"[{v.pid}] (A0) QueueSpec: invariants hold for every packetisation in the bounded instance as built ({out[0]['states']} + {out[1]['states']} states), each of the {len(out) - 2} protocol variants has a counterexample")
+
+
 def build_inputs(cases, wd, tag, two_pc_every=7):
     """materialise: one file per case with a rotating XML lexical variant; some files hold two point clouds"""
     path = os.path.join(wd, f"{tag}.inputs.ndjson")
@@ -68,11 +94,12 @@ def run(tier, seed, args):
     wd = vlib.workdir("C03")
     exe = vlib.build_harness()
     deep = tier == "thorough"
+    queue_model(v, wd, deep)
     cases = encoder_cases(wd, deep)
     log(f"[C03] (A) MC_Encode: {len(cases)} scene x layout cases, decoder(encoder(case)) = case for each")
     inp, n = build_inputs(cases, wd, "c03")
     raw = os.path.join(wd, "c03.raw.ndjson")
-    aborts = vlib.harness_supervised(exe, ["e57-read", "--cases", inp], raw, n)
+    aborts = vlib.harness_supervised(exe, ["e57-read", "--cases", inp, "--queue-policies", 4 if deep else 2], raw, n)
     vlib.drop_aborted_runs(raw, {a[0] for a in aborts})
     for idx, kind, err in aborts:
         # the reader did not survive a well-formed file: unbounded allocation, stack overflow or a hang
